@@ -27,6 +27,7 @@
 //	body <height>                   body served at a main-chain height -> <wid>|none|?
 //	stored <hdr>                    body served under a block hash   -> <wid>|none|?
 //	td <hdr> | isorphan <hdr> | txidx <tag>
+//	restart                         stop the node, start it again on the same data directory -> tip=.. h=.. td=..
 //	produce <wid>                   the node executes the body as its own block on its tip -> kept=<inst,..>|n/a
 //	scan                            C28 predicate over the best chain -> ok
 //	end                             predicates, close node           -> ok
@@ -40,6 +41,7 @@ import (
 	"math/big"
 	"os"
 	"os/exec"
+	"path/filepath"
 	"strconv"
 	"strings"
 
@@ -88,6 +90,7 @@ type env struct {
 	node     *chainkit.Node
 	cfg      *types.Chain33Config
 	name     string
+	dir      string // data directory of the node under test (survives a restart)
 	rec      bool
 	hi, lo   int64
 	gtime    int64
@@ -108,10 +111,16 @@ type env struct {
 	log        []string
 }
 
+var nodeSeq int
+
 func (e *env) closeNode() {
 	if e.node != nil {
 		e.node.Close()
 		e.node = nil
+	}
+	if e.dir != "" {
+		os.RemoveAll(e.dir)
+		e.dir = ""
 	}
 }
 
@@ -355,12 +364,14 @@ func (e *env) buildBlk(w []string) string {
 	canExec := parentExec && b.Height == parent.Height+1 && len(txs) > 0
 	dropped := false
 	if canExec {
-		done, err := chainkit.ProduceRaw(e.producer, parent.StateHash, b)
+		// the strongest version of the block: the state root that executing the body AS LISTED
+		// (duplicates included) really gives
+		state, execErr, err := chainkit.ExecKeepAll(e.producer, parent.StateHash, b)
 		if err != nil {
 			return "bad-op:produce:" + strings.ReplaceAll(err.Error(), " ", "_")
 		}
-		b.StateHash = done.StateHash
-		dropped = len(done.Txs) != len(b.Txs)
+		b.StateHash = state
+		dropped = execErr || len(seen) != len(ids)
 	} else {
 		// not executable on the producer: the header carries a garbage state hash
 		if fl[2] == '1' {
@@ -477,7 +488,13 @@ func (e *env) run(line string) string {
 		e.genuineDel = map[int]bool{}
 		e.lastSrc = map[int]string{}
 		e.log = nil
-		e.node = chainkit.NewNodeCfg(chainkit.NodeCfg{RecordSequence: e.rec, HighAllow: hi, LowAllow: lo})
+		nodeSeq++
+		base := os.Getenv("VERIF_TMP")
+		if base == "" {
+			base = os.TempDir()
+		}
+		e.dir = filepath.Join(base, fmt.Sprintf("c27node-%d-%d", os.Getpid(), nodeSeq))
+		e.node = chainkit.NewNodeCfgAt(e.dir, chainkit.NodeCfg{RecordSequence: e.rec, HighAllow: hi, LowAllow: lo})
 		g := e.node.Genesis()
 		e.gtime = g.BlockTime
 		if fmt.Sprint(g.Difficulty) != w[5] || !bytes.Equal(g.Hash(e.cfg), e.producer.Genesis().Hash(e.cfg)) {
@@ -606,6 +623,15 @@ func (e *env) run(line string) string {
 			}
 		}
 		return "none"
+	case "restart":
+		if len(w) != 1 {
+			return "bad-op"
+		}
+		e.node.Close()
+		e.node = chainkit.NewNodeCfgAt(e.dir, chainkit.NodeCfg{RecordSequence: e.rec, HighAllow: e.hi, LowAllow: e.lo})
+		e.log = append(e.log, "restart")
+		out.Stat("restarts", 1)
+		return e.tipStr()
 	case "produce":
 		if len(w) != 2 {
 			return "bad-op"
